@@ -515,10 +515,58 @@ func TestC13(t *testing.T) {
 					if msg, ok := checkStream(rec, c); !ok {
 						rec.Fail("moved-field", "", msg, c)
 					}
+					// a definition with a developer field, then - on another
+					// local type - a definition whose first regular field has
+					// the developer field's three bytes and whose other
+					// fields are the first definition's: the two differ only
+					// in where the counted parts begin
+					u := byte(0)
+					for n := 240; n > 0; n-- {
+						if mi.Fields[byte(n)] == nil && n != 253 {
+							u = byte(n)
+							break
+						}
+					}
+					devTriple := fitmodel.DevFieldDef{Num: u, Size: fds[0].Size, Idx: fds[0].Base}
+					asRegular := fitmodel.FieldDef{Num: u, Size: fds[0].Size, Base: fds[0].Base}
+					d1 := fitmodel.Rec{IsDef: true, Local: 1, Global: g, BigEndian: be, Fields: fds, HasDev: true, Dev: []fitmodel.DevFieldDef{devTriple}}
+					d2 := fitmodel.Rec{IsDef: true, Local: 2, Global: g, BigEndian: be, Fields: append([]fitmodel.FieldDef{asRegular}, fds[1:]...)}
+					d3 := fitmodel.Rec{IsDef: true, Local: 3, Global: g, BigEndian: !be, Fields: append(append([]fitmodel.FieldDef{}, fds[1:]...), asRegular)}
+					st2 := &fitmodel.Stream{HeaderSize: 12, Proto: 0x20, Recs: []fitmodel.Rec{
+						{IsDef: true, Local: 0, Global: 0, Fields: []fitmodel.FieldDef{{Num: 0, Size: 1, Base: 0}}}, {Local: 0, Raw: []byte{4}},
+						d1, {Local: 1, Raw: raw(append(append([]fitmodel.FieldDef{}, fds...), asRegular)...)},
+						d2, {Local: 2, Raw: raw(d2.Fields...)},
+						d3, {Local: 3, Raw: raw(d3.Fields...)},
+						{Local: 1, Raw: raw(append(append([]fitmodel.FieldDef{}, fds...), asRegular)...)}, {Local: 2, Raw: raw(d2.Fields...)},
+					}}
+					c2 := streamCase{FileType: 4, Stream: st2, Text: st2.String()}
+					nm++
+					if msg, ok := checkStream(rec, c2); !ok {
+						rec.Fail("moved-field", "", msg, c2)
+					}
 				}
 			}
 			rec.Eval("moved-field", nm)
 			rec.NonTrivialEnum(nm)
+		}
+
+		// redefinitions whose definition bytes collide with the replaced
+		// definition's under common checksums (gen.CollidingDefs)
+		if hx.FirstShard() {
+			nc := int64(0)
+			for _, p := range gen.CollidingDefs(20, fitmodel.FieldDef{Num: 3, Size: 1, Base: 0x02}, 3) {
+				for _, be := range []bool{false, true} {
+					st := gen.CollisionStream(p, be)
+					c := streamCase{FileType: 4, Stream: st, Text: st.String()}
+					nc++
+					if msg, ok := checkStream(rec, c); !ok {
+						rec.Fail("colliding-definitions", "", "a local type redefined with a field list whose definition bytes have the same "+p.Hash+" as the list it replaces: "+msg, c)
+						break
+					}
+				}
+			}
+			rec.Eval("colliding-definitions", nc)
+			rec.NonTrivialEnum(nc)
 		}
 
 		hx.RapidCheck(t, rec, "machine", func(rt *rapid.T, fail func(string, string, any)) {
